@@ -159,7 +159,7 @@ func c14Scenario(c *choice.Ctx, rep *report.R, k c14Kind) {
 	// ---- phase 2: faults on pooled (idle) connections; each non-default answer is one fault
 	idleWait := c.Choose(2, "idle-wait")
 	if idleWait == 1 {
-		time.Sleep(5 * time.Second)
+		hsleep(5 * time.Second)
 		wait()
 		note("idle5s")
 	}
@@ -199,7 +199,7 @@ func c14Scenario(c *choice.Ctx, rep *report.R, k c14Kind) {
 	fname := c14Faults[connFault]
 	srv.healthy = connFault == 0
 	connsBefore := d.NumConns()
-	dialsBefore := d.Dials
+	dialsBefore := d.NumDials()
 	if fname == "stall-write" {
 		d.OnConn = func(impl, peer *env.End) { impl.Stall(); d.OnConn = nil }
 		for ci := 0; ci < connsBefore; ci++ {
@@ -221,7 +221,7 @@ func c14Scenario(c *choice.Ctx, rep *report.R, k c14Kind) {
 	srv.pump()
 	// apply the connection fault to every frame the faulty server has received so far, then become healthy
 	var faultAt time.Time
-	dialsAtFault := d.Dials
+	dialsAtFault := d.NumDials()
 	killed := map[int]bool{}
 	victims := map[int][]string{} // conn -> names of the queries it carried when the fault hit
 	if connFault != 0 {
@@ -268,7 +268,7 @@ func c14Scenario(c *choice.Ctx, rep *report.R, k c14Kind) {
 		}
 		d.OnConn = nil
 		faultAt = time.Now()
-		dialsAtFault = d.Dials
+		dialsAtFault = d.NumDials()
 		srv.healthy = true
 		wait()
 		srv.pump()
@@ -286,7 +286,7 @@ func c14Scenario(c *choice.Ctx, rep *report.R, k c14Kind) {
 				fail("slow-recovery", fmt.Sprintf("exchange %d needed %v to recover from stale pooled connections", cl.idx, cl.doneAt.Sub(t0)))
 			}
 		}
-		if got := d.Dials - dialsBefore; got > 7*n {
+		if got := d.NumDials() - dialsBefore; got > 7*n {
 			fail("too-many-dials", fmt.Sprintf("%d dials for %d exchanges", got, n))
 		}
 	}
@@ -303,7 +303,7 @@ func c14Scenario(c *choice.Ctx, rep *report.R, k c14Kind) {
 			if !mine {
 				continue
 			}
-			if cl.inflight() && d.Dials > dialsAtFault {
+			if cl.inflight() && d.NumDials() > dialsAtFault {
 				continue // it was retried at once (and the retry is now subject to the scripted dial fault)
 			}
 			if cl.inflight() {
@@ -314,7 +314,7 @@ func c14Scenario(c *choice.Ctx, rep *report.R, k c14Kind) {
 		}
 	}
 	// (d) a failure on a freshly dialled connection is not retried forever
-	if got := d.Dials - dialsBefore; got > 7*n {
+	if got := d.NumDials() - dialsBefore; got > 7*n {
 		fail("unbounded-redial", fmt.Sprintf("%d dials for %d exchanges (fault %s)", got, n, fname))
 	}
 	// run out the clock: everything must have returned by its deadline
@@ -343,7 +343,7 @@ func c14Scenario(c *choice.Ctx, rep *report.R, k c14Kind) {
 	// server must work again: the transport is not wedged
 	d.OnConn = nil
 	d.ClearScript()
-	time.Sleep(61 * time.Second)
+	hsleep(61 * time.Second)
 	wait()
 	last := newc()
 	all = append(all, last)
@@ -355,7 +355,7 @@ func c14Scenario(c *choice.Ctx, rep *report.R, k c14Kind) {
 		fail("wedged-after-fault", fmt.Sprintf("an exchange against a healthy server after the faults did not succeed: %s", last))
 	}
 	tr.Close()
-	time.Sleep(7 * time.Second)
+	hsleep(7 * time.Second)
 	wait()
 	for ci := 0; ci < d.NumConns(); ci++ {
 		if t := own.Tainted(d.ImplEnd(ci).Written()); t != "" {
